@@ -133,10 +133,12 @@ struct Runner {
   // KNOWN-defect regimes, decided from the back end, the ellipsoid and the polygon's edges only (fixed order).  Inside a regime every
   // numerical monitor (oracle:/law:) reports under the regime key with the monitor's own key in detail.monitor.
   double test_extra_S = 0;
-  bool tr_rheq = false, tr_preq = false;     // the edge(s) being evaluated by the current operation carry the signature
+  bool tr_rheq = false, tr_preq = false, tr_rhtiny = false;     // the edge(s) being evaluated by the current operation carry the signature
   std::string regime() const {
+    if (env.be == B_RH_EXACT && (M.nrhtiny || tr_rhtiny)) return "regime:C08/rhumb-exact/edge-with-nonzero-latitude-below-1e-290deg";
     if (env.be == B_RH_EXACT && env.f < 0 && (M.nrheq || tr_rheq)) return "regime:C08/rhumb-exact/prolate-ellipsoid-edge-near-equator-same-side";
     if ((env.be == B_EXACT || env.be == B_DELEG) && env.f < -0.2 && (M.npreq || tr_preq)) return "regime:C08/geod-exact/strongly-prolate-ellipsoid-inverse-edge-within-1e-8deg-of-equator";
+    if ((env.be == B_EXACT || env.be == B_DELEG) && env.f > 0.5 && (M.npreq || tr_preq)) return "regime:C08/geod-exact/strongly-oblate-ellipsoid-inverse-edge-within-1e-8deg-of-equator";
     return ""; }
   void viol(const std::string& key, const J& d) {
     std::string rg = (key.compare(0, 7, "oracle:") == 0 || key.compare(0, 4, "law:") == 0) ? regime() : std::string();
@@ -155,7 +157,7 @@ struct Runner {
   }
 
   void add_point(double lat, double lon) {
-    tr_rheq = tr_preq = false; ++nops; h = vh::hmix(vh::hmix(h, lat), lon);
+    tr_rheq = tr_preq = tr_rhtiny = false; ++nops; h = vh::hmix(vh::hmix(h, lat), lon);
     P->AddPoint(lat, lon); twin->AddPoint(lat, lon);
     RV nv{lat, lon};
     if (!M.V.empty()) M.add(env, between(M.V.back(), nv, !polyline));
@@ -163,7 +165,7 @@ struct Runner {
     c.event("ops: AddPoint");
   }
   void add_edge(double azi, double s) {
-    tr_rheq = tr_preq = false; ++nops; h = vh::hmix(vh::hmix(h, azi), s) ^ 0x55;
+    tr_rheq = tr_preq = tr_rhtiny = false; ++nops; h = vh::hmix(vh::hmix(h, azi), s) ^ 0x55;
     if (M.V.empty()) {     // documented: does nothing
       P->AddEdge(azi, s); twin->AddEdge(azi, s);
       if (P->NumberPoints() != 0) viol(k("history", "addedge-on-empty-object-changed-count"), wit());
@@ -182,7 +184,7 @@ struct Runner {
     if (!(std::isfinite(B.lat) && std::isfinite(B.lon))) { viol(k("oracle", "addedge-vertex-non-finite"), wit().f("azi", azi).f("s", s)); e.st = E_FAIL; e.why = "non-finite vertex from library"; }
     else {
       e = rh() ? rhumb_edge_direct(env, c, A, azi, s, &B, &perr, nullptr) : geod_edge_direct(env, A, azi, s, &B, !polyline, &perr);
-      tr_rheq = e.rheq;
+      tr_rheq = e.rheq; tr_rhtiny = e.rhtiny;
       if (e.st == E_OK) {
         double T = env.K * (env.tol_pos * (double)e.lenscale + (double)e.extra_tol) + 1.5 * ref::ulp_d(B.lon) * (M_PI / 180) * std::max(env.a, env.b);
         if ((double)perr <= T) c.obs("AddEdge vertex position error / tolerance [" + bn + "]", (double)perr / T, J().f("a", env.a).f("f", env.f).f("lat1", A.lat).f("lon1", A.lon).f("azi", azi).f("s", s).f("err_m", (double)perr));
@@ -213,7 +215,7 @@ struct Runner {
   bool closed_totals(LD& I, LD& dlam, LD& len, LD& tolA, LD& tolP, LD& absI) {
     if (!M.judged) return false;
     if (close_version != version) { close_edge = between(M.V.back(), M.V[0], true); close_version = version; }
-    tr_rheq = tr_rheq || close_edge.rheq; tr_preq = tr_preq || close_edge.preq;
+    tr_rheq = tr_rheq || close_edge.rheq; tr_preq = tr_preq || close_edge.preq; tr_rhtiny = tr_rhtiny || close_edge.rhtiny;
     if (close_edge.st != E_OK) return false;
     I = M.I + close_edge.I; dlam = M.dlam + close_edge.dlam; len = M.len + close_edge.len; absI = M.absI + fabsl(close_edge.I);
     tolA = M.tolA + ((LD)env.tol_pos * close_edge.lenscale + close_edge.extra_tol) * env.cauth * close_edge.cond; tolP = M.tolP + (LD)env.tol_pos * close_edge.lenscale + close_edge.extra_tol;
@@ -253,7 +255,7 @@ struct Runner {
   }
 
   void compute(bool with_twin) {
-    tr_rheq = tr_preq = false; ++nops; c.event("ops: Compute (all four reverse/sign combinations)");
+    tr_rheq = tr_preq = tr_rhtiny = false; ++nops; c.event("ops: Compute (all four reverse/sign combinations)");
     unsigned n = (unsigned)M.V.size(); double per[4], A[4]; unsigned ret[4];
     int order[4] = {0, 1, 2, 3}; for (int i = 3; i > 0; --i) std::swap(order[i], order[c.rng.below(i + 1)]);
     for (int q = 0; q < 4; ++q) { int i = order[q]; per[i] = vh::sentinel(10 + i); A[i] = vh::sentinel(20 + i); ret[i] = P->Compute(i >> 1, i & 1, per[i], A[i]); }
@@ -297,17 +299,17 @@ struct Runner {
   }
 
   void test_point(double lat, double lon, bool r, bool s, bool ref_too) {
-    tr_rheq = tr_preq = false; ++nops; c.event("ops: TestPoint"); h = vh::hmix(vh::hmix(h, lat), lon) ^ 0x99;
+    tr_rheq = tr_preq = tr_rhtiny = false; ++nops; c.event("ops: TestPoint"); h = vh::hmix(vh::hmix(h, lat), lon) ^ 0x99;
     double per = vh::sentinel(3), A = vh::sentinel(4); unsigned num = P->TestPoint(lat, lon, r, s, per, A);
     std::unique_ptr<IPoly> Q(P->clone()); Q->AddPoint(lat, lon); double per2 = 0, A2 = 0; unsigned num2 = Q->Compute(r, s, per2, A2);
     check_test("TestPoint", num, per, A, num2, per2, A2, J().f("lat", lat).f("lon", lon).b("reverse", r).b("sign", s));
     if (!polyline && M.V.size() >= 1) { double B[4]; for (int i = 0; i < 4; ++i) { double p; B[i] = 0; P->TestPoint(lat, lon, i >> 1, i & 1, p, B[i]); } relations("TestPoint", B, 4); }
     if (ref_too && M.judged && !M.V.empty() && std::isfinite(A) ) {
       RV T{lat, lon}; EdgeOut e1 = between(M.V.back(), T, !polyline);
-      tr_rheq = e1.rheq; tr_preq = e1.preq;
+      tr_rheq = e1.rheq; tr_preq = e1.preq; tr_rhtiny = e1.rhtiny;
       if (e1.st != E_OK) return;
       if (polyline) { judge_per("TestPoint-polyline", per, M.len + e1.len, M.tolP + (LD)env.tol_pos * e1.lenscale + e1.extra_tol, e1.preq, e1.rheq); return; }
-      EdgeOut e2 = between(T, M.V[0], true); tr_rheq = tr_rheq || e2.rheq; tr_preq = tr_preq || e2.preq; if (e2.st != E_OK) return;
+      EdgeOut e2 = between(T, M.V[0], true); tr_rheq = tr_rheq || e2.rheq; tr_preq = tr_preq || e2.preq; tr_rhtiny = tr_rhtiny || e2.rhtiny; if (e2.st != E_OK) return;
       LD frac, Accw = closed_area(env, M.I + e1.I + e2.I, M.dlam + e1.dlam + e2.dlam, &frac); if (frac > (LD)1e-9) return;
       LD tP = M.tolP + (LD)env.tol_pos * (e1.lenscale + e2.lenscale) + e1.extra_tol + e2.extra_tol, tA = M.tolA + (((LD)env.tol_pos * e1.lenscale + e1.extra_tol) * e1.cond + ((LD)env.tol_pos * e2.lenscale + e2.extra_tol) * e2.cond) * env.cauth;
       judge_area("TestPoint", A, Accw, r, s, tA, (int)M.V.size() + 1, e1.tie || e2.tie, e1.preq || e2.preq); judge_per("TestPoint", per, M.len + e1.len + e2.len, tP, e1.preq || e2.preq, e1.rheq || e2.rheq);
@@ -315,7 +317,7 @@ struct Runner {
     }
   }
   void test_edge(double azi, double sd, bool r, bool s) {
-    tr_rheq = tr_preq = false; ++nops; c.event("ops: TestEdge"); h = vh::hmix(vh::hmix(h, azi), sd) ^ 0x33;
+    tr_rheq = tr_preq = tr_rhtiny = false; ++nops; c.event("ops: TestEdge"); h = vh::hmix(vh::hmix(h, azi), sd) ^ 0x33;
     if (rh() && !M.V.empty() && std::fabs(M.V.back().lat) == 90) { c.event("skipped: rhumb TestEdge from a pole vertex"); return; }
     if (rh() && !M.V.empty()) { bool crossed = true; int g = 0; while (g++ < 60) { rhumb_edge_direct(env, c, M.V.back(), azi, sd, nullptr, nullptr, &crossed); if (!crossed) break; sd *= 0.5; } if (crossed) { c.event("skipped: rhumb TestEdge from a vertex within 1e-7 deg of a pole"); return; } }
     double per = vh::sentinel(5), A = vh::sentinel(6); unsigned num = P->TestEdge(azi, sd, r, s, per, A);
